@@ -183,6 +183,23 @@ def _strip_keys(x):
     return x
 
 
+_CONTAINER_CASTS = {"builtins.set", "builtins.list", "builtins.tuple", "builtins.frozenset", "builtins.sorted"}
+
+
+def _membership_base(x):
+    """`e in set(X)`, `e in list(X)`, `e in X.index.tolist()`, `e in X.keys()` all test membership in X[.index]."""
+    while True:
+        y = _strip_keys(x)
+        if is_term(y) and y[0] == "call" and y[1][0] == "glob" and y[1][1] in _CONTAINER_CASTS and len(y[2]) == 1 and not y[3]:
+            y = y[2][0]
+        elif is_term(y) and y[0] == "call" and y[1][0] == "attr" and y[1][2] in ("tolist", "to_list") and not y[2] and not y[3] \
+                and is_term(y[1][1]) and y[1][1][0] == "attr" and y[1][1][2] == "index":  # a pandas Index, not a Series
+            y = y[1][1]
+        if y == x:
+            return x
+        x = y
+
+
 def _bar_parts(n):
     """Flatten a normalised `|`-chain / dict-merge into its ordered parts."""
     if is_term(n) and n[0] == "bar":
@@ -318,6 +335,9 @@ def _deindex1(t):
     return t
 
 
+_NEGATED_CMP = {"!=": "==", "not in": "in", "is not": "is"}
+
+
 def norm(t, _arith=True):  # noqa: C901, PLR0911, PLR0912
     if not is_term(t):
         if isinstance(t, tuple):
@@ -408,9 +428,16 @@ def norm(t, _arith=True):  # noqa: C901, PLR0911, PLR0912
         if nt is not None:
             x, is_none = nt
             return ("ifnone", norm(x), a if is_none else b, b if is_none else a)
-        if c[0] == "not" or (c[0] == "unop" and c[1] == "not"):
-            inner = c[1] if c[0] == "not" else c[2]
-            return ("if", norm(inner), b, a)
+        flipped = False
+        while True:
+            if c[0] == "not" or (c[0] == "unop" and c[1] == "not"):
+                c, flipped = (c[1] if c[0] == "not" else c[2]), not flipped
+            elif c[0] == "cmp" and len(c[1]) == 1 and c[1][0] in _NEGATED_CMP:
+                c, flipped = ("cmp", (_NEGATED_CMP[c[1][0]],), c[2]), not flipped
+            else:
+                break
+        if flipped:
+            a, b = b, a
         return ("if", norm(c), a, b)
     if tag == "call":
         f = t[1]
@@ -494,7 +521,7 @@ def norm(t, _arith=True):  # noqa: C901, PLR0911, PLR0912
         elt = (norm(t[2][0]), norm(t[2][1])) if t[1] == "dict" else norm(t[2])
         return ("comp", t[1], elt, gens)
     if tag == "cmp" and len(t[1]) == 1 and t[1][0] in ("in", "not in"):
-        return ("cmp", t[1], (norm(t[2][0]), norm(_strip_keys(t[2][1]))))
+        return ("cmp", t[1], (norm(t[2][0]), norm(_membership_base(t[2][1]))))
     return tuple(norm(x) if isinstance(x, tuple) else x for x in t)
 
 
